@@ -206,7 +206,11 @@ func liveSession(o *hlib.Out, g *gen, v byte, lv liveVariant, bigCount int) {
 	cfg.ConnectTimeout = 10 * time.Second
 	cfg.NumConns = 1
 	cfg.Keyspace = "demo"
-	cfg.Consistency = gocql.One
+	// session-level settings, varied per session (independently of what the calls below set or switch off)
+	cfg.Consistency = []gocql.Consistency{gocql.One, gocql.Quorum, gocql.LocalQuorum, gocql.Two}[r.Intn(4)]
+	cfg.DefaultTimestamp = (int(v)+r.Intn(2))%2 == 0 || lv.auth != lv.snappy
+	cfg.PageSize = int(r.Pick(5000, 0, 7))
+	cfg.SerialConsistency = []gocql.SerialConsistency{0, gocql.Serial, gocql.LocalSerial}[r.Intn(3)]
 	cfg.Logger = log.New(io.Discard, "", 0)
 	cfg.DisableSkipMetadata = v == 1
 	if lv.auth {
@@ -248,15 +252,31 @@ func liveSession(o *hlib.Out, g *gen, v byte, lv liveVariant, bigCount int) {
 			return out
 		}
 		b1, b3 := r.Bytes(1+r.Intn(9)), r.Bytes(1+r.Intn(9))
+		base := func(vals []gocql.VerifC03Value) gocql.VerifC03Params {
+			p := gocql.VerifC03Params{Consistency: uint16(cfg.Consistency), SkipMeta: skip, Values: vals, SerialConsistency: uint16(cfg.SerialConsistency),
+				DefaultTimestamp: cfg.DefaultTimestamp, Keyspace: ks5}
+			if cfg.PageSize > 0 {
+				p.PageSize = cfg.PageSize
+			}
+			return p
+		}
+		baseBatch := func(typ byte) *gocql.VerifC03Request {
+			return &gocql.VerifC03Request{Kind: gocql.VerifC03Batch, BatchType: typ, Consistency: uint16(cfg.Consistency),
+				SerialCons: uint16(cfg.SerialConsistency), DefaultTS: cfg.DefaultTimestamp}
+		}
 		if bigCount == 0 {
-			// 1. positional values: bytes, null, empty; consistency
-			run(&liveOp{what: "Query(values)", stmt: stmt3, want: &gocql.VerifC03Request{Kind: gocql.VerifC03Execute,
-				Params: gocql.VerifC03Params{Consistency: uint16(gocql.Quorum), SkipMeta: skip, Values: mkVals(b1, nil, []byte{}), Keyspace: ks5}}},
-				func() error { return s.Query(stmt3, b1, nil, []byte{}).Consistency(gocql.Quorum).Exec() })
+			// 1. positional values: bytes, null, empty; consistency set, everything else inherited from the session
+			{
+				w := base(mkVals(b1, nil, []byte{}))
+				w.Consistency = uint16(gocql.Quorum)
+				run(&liveOp{what: "Query(values)", stmt: stmt3, want: &gocql.VerifC03Request{Kind: gocql.VerifC03Execute, Params: w}},
+					func() error { return s.Query(stmt3, b1, nil, []byte{}).Consistency(gocql.Quorum).Exec() })
+			}
 			// 2. unset (v4+), serial consistency, explicit timestamp (v3+), custom payload (v4+), tracing
 			{
 				q := s.Query(stmt3, b3, b1, b3).Consistency(gocql.LocalQuorum).SerialConsistency(gocql.LocalSerial).Trace(nopTracer{})
-				w := gocql.VerifC03Params{Consistency: uint16(gocql.LocalQuorum), SkipMeta: skip, SerialConsistency: uint16(gocql.LocalSerial), Values: mkVals(b3, b1, b3), Keyspace: ks5}
+				w := base(mkVals(b3, b1, b3))
+				w.Consistency, w.SerialConsistency = uint16(gocql.LocalQuorum), uint16(gocql.LocalSerial)
 				var pl map[string][]byte
 				if v >= 4 {
 					q = s.Query(stmt3, b3, gocql.UnsetValue, b3).Consistency(gocql.LocalQuorum).SerialConsistency(gocql.LocalSerial).Trace(nopTracer{})
@@ -271,25 +291,35 @@ func liveSession(o *hlib.Out, g *gen, v byte, lv liveVariant, bigCount int) {
 				run(&liveOp{what: "Query(unset,serial,timestamp,payload,trace)", stmt: stmt3, tracing: true,
 					want: &gocql.VerifC03Request{Kind: gocql.VerifC03Execute, Params: w, CustomPayload: pl}}, func() error { return q.Exec() })
 			}
-			// 3. named values (v3+) and "timestamp: now"
+			// 3. named values (v3+) and "timestamp: now" switched on for this query
 			if v >= 3 {
-				w := gocql.VerifC03Params{Consistency: uint16(gocql.One), SkipMeta: skip, DefaultTimestamp: true, Keyspace: ks5,
-					Values: []gocql.VerifC03Value{{Name: "c0", Value: b1}, {Name: "c1", Value: nil}}}
+				w := base([]gocql.VerifC03Value{{Name: "c0", Value: b1}, {Name: "c1", Value: nil}})
+				w.DefaultTimestamp = true
 				run(&liveOp{what: "Query(named,timestamp now)", stmt: stmtN, want: &gocql.VerifC03Request{Kind: gocql.VerifC03Execute, Params: w}},
 					func() error {
 						return s.Query(stmtN, gocql.NamedValue("c0", b1), gocql.NamedValue("c1", nil)).DefaultTimestamp(true).Exec()
 					})
 			}
-			// 4. Bind
-			run(&liveOp{what: "Bind", stmt: stmtB, want: &gocql.VerifC03Request{Kind: gocql.VerifC03Execute,
-				Params: gocql.VerifC03Params{Consistency: uint16(gocql.One), SkipMeta: skip, Values: mkVals(b3, b1), Keyspace: ks5}}},
+			// 4. Bind: every option inherited from the session
+			run(&liveOp{what: "Bind", stmt: stmtB, want: &gocql.VerifC03Request{Kind: gocql.VerifC03Execute, Params: base(mkVals(b3, b1))}},
 				func() error {
 					return s.Bind(stmtB, func(qi *gocql.QueryInfo) ([]interface{}, error) { return []interface{}{b3, b1}, nil }).Exec()
 				})
+			// 4b. explicit opt-outs of everything the session may have switched on
+			{
+				w := base(mkVals(b1, b1, nil))
+				w.DefaultTimestamp, w.PageSize, w.SerialConsistency = false, 0, 0
+				run(&liveOp{what: "Query(DefaultTimestamp(false),PageSize(0),SerialConsistency(0),Trace(nil))", stmt: stmt3,
+					want: &gocql.VerifC03Request{Kind: gocql.VerifC03Execute, Params: w}},
+					func() error {
+						return s.Query(stmt3, b1, b1, nil).DefaultTimestamp(false).PageSize(0).SerialConsistency(0).Trace(nil).Prefetch(0.9).Idempotent(true).Exec()
+					})
+			}
 			// 5. paged iteration: page size 2 over 5 rows = 3 EXECUTEs, the later ones carry the paging state
 			if v >= 2 {
 				for page := 0; page < 3; page++ {
-					w := gocql.VerifC03Params{Consistency: uint16(gocql.One), SkipMeta: skip, PageSize: 2, Values: []gocql.VerifC03Value{}, Keyspace: ks5}
+					w := base([]gocql.VerifC03Value{})
+					w.PageSize = 2
 					if page > 0 {
 						w.PagingState = be64(uint64(2 * page))
 					}
@@ -306,30 +336,54 @@ func liveSession(o *hlib.Out, g *gen, v byte, lv liveVariant, bigCount int) {
 					o.Violate(-1, "live-call-failed", "", fmt.Sprintf("v%d paged SELECT: %d rows, %v", v, rows, err), nil)
 				}
 			}
-			// 6. Batch (v2+): a prepared entry with values, an entry without, serial consistency and timestamp (v3+)
+			// 6. Batch (v2+): a prepared entry with values, an entry without; options set / inherited / switched off
 			if v >= 2 {
+				del := "DELETE FROM demo.bt_" + tag + " WHERE c0 = 0x00"
 				b := s.NewBatch(gocql.UnloggedBatch)
 				b.Cons = gocql.Quorum
 				b.Query(stmtBatch, b1, b3)
-				b.Query("DELETE FROM demo.bt_" + tag + " WHERE c0 = 0x00")
+				b.Query(del)
 				b.Query(stmtBatch, nil, []byte{})
-				want := &gocql.VerifC03Request{Kind: gocql.VerifC03Batch, BatchType: 1, Consistency: uint16(gocql.Quorum), Statements: []gocql.VerifC03Stmt{
-					{Values: mkVals(b1, b3)}, {Statement: "DELETE FROM demo.bt_" + tag + " WHERE c0 = 0x00"}, {Values: mkVals(nil, []byte{})}}}
-				if v >= 3 {
-					b.SerialConsistency(gocql.Serial).WithTimestamp(-5)
-					want.SerialCons, want.DefaultTS, want.DefaultTSVal = uint16(gocql.Serial), true, -5
-				}
+				want := baseBatch(1)
+				want.Consistency = uint16(gocql.Quorum)
+				want.Statements = []gocql.VerifC03Stmt{{Values: mkVals(b1, b3)}, {Statement: del}, {Values: mkVals(nil, []byte{})}}
+				b.SerialConsistency(gocql.Serial).WithTimestamp(-5)
+				want.SerialCons, want.DefaultTS, want.DefaultTSVal = uint16(gocql.Serial), true, -5
 				if v >= 4 {
 					b.CustomPayload = map[string][]byte{"bk": {9}}
 					want.CustomPayload = b.CustomPayload
 				}
-				run(&liveOp{what: "Batch", stmt: "\x00batch", want: want}, func() error { return s.ExecuteBatch(b) })
+				run(&liveOp{what: "Batch(set)", stmt: "\x00batch", want: want}, func() error { return s.ExecuteBatch(b) })
+
+				b2 := s.NewBatch(gocql.LoggedBatch)
+				b2.Query(del)
+				want2 := baseBatch(0)
+				want2.Statements = []gocql.VerifC03Stmt{{Statement: del}}
+				run(&liveOp{what: "Batch(inherited)", stmt: "\x00batch", want: want2}, func() error { return s.ExecuteBatch(b2) })
+
+				bOff := s.NewBatch(gocql.CounterBatch).DefaultTimestamp(false).SerialConsistency(0).Trace(nil)
+				bOff.Query(del)
+				bOff.Query(stmtBatch, b1, nil)
+				want3 := baseBatch(2)
+				want3.DefaultTS, want3.SerialCons = false, 0
+				want3.Statements = []gocql.VerifC03Stmt{{Statement: del}, {Values: mkVals(b1, nil)}}
+				run(&liveOp{what: "Batch(DefaultTimestamp(false),SerialConsistency(0))", stmt: "\x00batch", want: want3}, func() error { return s.ExecuteBatch(bOff) })
+
+				// the deprecated package-level constructor inherits nothing from the session
+				b4 := gocql.NewBatch(gocql.UnloggedBatch)
+				b4.Cons = gocql.One
+				b4.Query(del)
+				want4 := &gocql.VerifC03Request{Kind: gocql.VerifC03Batch, BatchType: 1, Consistency: uint16(gocql.One), Statements: []gocql.VerifC03Stmt{{Statement: del}}}
+				run(&liveOp{what: "Batch(gocql.NewBatch)", stmt: "\x00batch", want: want4}, func() error { return s.ExecuteBatch(b4) })
 			}
 			// 7. a statement that is not prepared (QUERY)
 			trunc := "TRUNCATE demo.t_" + tag
-			run(&liveOp{what: "Query(unprepared)", stmt: trunc, want: &gocql.VerifC03Request{Kind: gocql.VerifC03Query, Statement: trunc,
-				Params: gocql.VerifC03Params{Consistency: uint16(gocql.All), Keyspace: ks5}}},
-				func() error { return s.Query(trunc).Consistency(gocql.All).Exec() })
+			{
+				w := base(nil)
+				w.SkipMeta, w.Consistency = false, uint16(gocql.All)
+				run(&liveOp{what: "Query(unprepared)", stmt: trunc, want: &gocql.VerifC03Request{Kind: gocql.VerifC03Query, Statement: trunc, Params: w}},
+					func() error { return s.Query(trunc).Consistency(gocql.All).Exec() })
+			}
 		} else {
 			// [short] count boundary: 65535 bound values; 65535 batch statements (v2+)
 			args := make([]interface{}, bigCount)
@@ -338,11 +392,10 @@ func liveSession(o *hlib.Out, g *gen, v byte, lv liveVariant, bigCount int) {
 				args[i] = []byte{7}
 				vals[i].Value = []byte{7}
 			}
-			run(&liveOp{what: "Query(65535 values)", stmt: stmtBig, want: &gocql.VerifC03Request{Kind: gocql.VerifC03Execute,
-				Params: gocql.VerifC03Params{Consistency: uint16(gocql.One), SkipMeta: skip, Values: vals, Keyspace: ks5}}},
+			run(&liveOp{what: "Query(65535 values)", stmt: stmtBig, want: &gocql.VerifC03Request{Kind: gocql.VerifC03Execute, Params: base(vals)}},
 				func() error { return s.Query(stmtBig, args...).Exec() })
 			b := s.NewBatch(gocql.LoggedBatch)
-			want := &gocql.VerifC03Request{Kind: gocql.VerifC03Batch, BatchType: 0, Consistency: uint16(gocql.One)}
+			want := baseBatch(0)
 			del := "DELETE FROM demo.kv WHERE k = 'zz'"
 			for i := 0; i < bigCount; i++ {
 				b.Query(del)
@@ -447,15 +500,9 @@ func liveSession(o *hlib.Out, g *gen, v byte, lv liveVariant, bigCount int) {
 			}
 			op.done = true
 			want := *op.want
-			// the session's defaults are part of what was asked: NewCluster sets PageSize 5000 and
-			// DefaultTimestamp true; protocol 1 has no notation for paging / serial consistency, v1-v2 none for timestamps
+			// what the version has no notation for is not on the wire (C03_wire_meaning): no timestamps before v3,
+			// no paging / serial consistency in v1, no batch flags (serial consistency, timestamp) in v2
 			if want.Kind == gocql.VerifC03Execute || want.Kind == gocql.VerifC03Query {
-				if want.Params.PageSize == 0 {
-					want.Params.PageSize = cfg.PageSize
-				}
-				if !want.Params.DefaultTimestamp {
-					want.Params.DefaultTimestamp = cfg.DefaultTimestamp
-				}
 				if v < 3 {
 					want.Params.DefaultTimestamp, want.Params.DefaultTimestampValue = false, 0
 				}
@@ -463,8 +510,8 @@ func liveSession(o *hlib.Out, g *gen, v byte, lv liveVariant, bigCount int) {
 					want.Params.PageSize, want.Params.SerialConsistency = 0, 0
 				}
 			}
-			if want.Kind == gocql.VerifC03Batch && v >= 3 && !want.DefaultTS {
-				want.DefaultTS = cfg.DefaultTimestamp
+			if want.Kind == gocql.VerifC03Batch && v < 3 {
+				want.DefaultTS, want.DefaultTSVal, want.SerialCons = false, 0, 0
 			}
 			if want.Kind == gocql.VerifC03Execute {
 				want.PreparedID = m.id
